@@ -136,3 +136,71 @@ theorem evalRowVals_append (r s : Row) : ∀ (bs : List (Expr × Expr)), (∀ u 
 end
 
 end Pdt.Spec
+
+namespace Pdt.Spec
+
+mutual
+/-- the value of an expression depends only on the values of the columns it mentions -/
+theorem evalRow_congr (r r' : Row) : ∀ (e : Expr), (∀ u ∈ e.uids, r'.get u = r.get u) → evalRow r' e = evalRow r e
+  | .col u _ _, h => by simp only [evalRow]; exact h u (by simp [Expr.uids])
+  | .lit _ _, _ => by simp [evalRow]
+  | .cast e _, h => by
+      simp only [evalRow]
+      rw [evalRow_congr r r' e (fun u hu => h u (by simpa [Expr.uids] using hu))]
+  | .fn op args part arr, h => by
+      simp only [evalRow]
+      rw [evalRowList_congr r r' args (fun u hu => h u (by simp [Expr.uids, hu]))]
+  | .case bs none, h => by
+      simp only [evalRow, evalRowOpt]
+      simp only [Expr.uids, Expr.uidsOpt, List.append_nil] at h
+      rw [evalRowConds_congr r r' bs h, evalRowVals_congr r r' bs h]
+  | .case bs (some x), h => by
+      simp only [evalRow, evalRowOpt]
+      simp only [Expr.uids, Expr.uidsOpt, List.mem_append] at h
+      rw [evalRowConds_congr r r' bs (fun u hu => h u (Or.inl hu)), evalRowVals_congr r r' bs (fun u hu => h u (Or.inl hu)),
+        evalRow_congr r r' x (fun u hu => h u (Or.inr hu))]
+theorem evalRowList_congr (r r' : Row) : ∀ (l : List Expr), (∀ u ∈ Expr.uidsList l, r'.get u = r.get u) →
+    evalRowList r' l = evalRowList r l
+  | [], _ => by simp [evalRowList]
+  | e :: es, h => by
+      simp only [Expr.uidsList, List.mem_append] at h
+      simp only [evalRowList]
+      rw [evalRow_congr r r' e (fun u hu => h u (Or.inl hu)), evalRowList_congr r r' es (fun u hu => h u (Or.inr hu))]
+theorem evalRowConds_congr (r r' : Row) : ∀ (bs : List (Expr × Expr)), (∀ u ∈ Expr.uidsBranches bs, r'.get u = r.get u) →
+    evalRowConds r' bs = evalRowConds r bs
+  | [], _ => by simp [evalRowConds]
+  | (c, v) :: bs, h => by
+      simp only [Expr.uidsBranches, List.mem_append] at h
+      simp only [evalRowConds]
+      rw [evalRow_congr r r' c (fun u hu => h u (Or.inl (Or.inl hu))), evalRowConds_congr r r' bs (fun u hu => h u (Or.inr hu))]
+theorem evalRowVals_congr (r r' : Row) : ∀ (bs : List (Expr × Expr)), (∀ u ∈ Expr.uidsBranches bs, r'.get u = r.get u) →
+    evalRowVals r' bs = evalRowVals r bs
+  | [], _ => by simp [evalRowVals]
+  | (c, v) :: bs, h => by
+      simp only [Expr.uidsBranches, List.mem_append] at h
+      simp only [evalRowVals]
+      rw [evalRow_congr r r' v (fun u hu => h u (Or.inl (Or.inr hu))), evalRowVals_congr r r' bs (fun u hu => h u (Or.inr hu))]
+end
+
+/-- appended entries for *other* identities do not change a lookup -/
+theorem get_append_other (r s : Row) (u : Uid) (h : ∀ e ∈ s, e.1 ≠ u) : Row.get (r ++ s) u = Row.get r u := by
+  unfold Row.get
+  rw [List.find?_append]
+  cases hf : r.find? (·.1 == u) with
+  | some x => simp
+  | none =>
+    have : s.find? (·.1 == u) = none := by
+      rw [List.find?_eq_none]; intro e he; simpa using h e he
+    simp [this]
+
+theorem keeps_congr (preds : List Expr) (r r' : Row) (h : ∀ u ∈ Expr.uidsList preds, r'.get u = r.get u) :
+    keeps preds r' = keeps preds r := by
+  induction preds with
+  | nil => simp [keeps]
+  | cons p ps ih =>
+    simp only [Expr.uidsList, List.mem_append] at h
+    have := ih (fun u hu => h u (Or.inr hu))
+    simp only [keeps, List.all_cons] at this ⊢
+    rw [evalRow_congr r r' p (fun u hu => h u (Or.inl hu)), this]
+
+end Pdt.Spec
